@@ -859,6 +859,12 @@ pub fn replay_file<E: Engine>(j: &J) -> Result<Vec<Violation>, String> {
     let chaos = j.get("chaos").and_then(|x| x.as_bool()).unwrap_or(false);
     let (cfg, evs) = parse_trace::<E>(j)?;
     let t = execute::<E>(&cfg, &evs, prop, chaos);
+    for (i, k) in known().iter().enumerate() {
+        if k.prop == prop && t.ctx.known_count[i] > 0 {
+            let d = t.ctx.known_first[i].clone().map(|x| x.1).unwrap_or_default();
+            println!("KNOWN-FINDING: property={} {} [class {}; {}]", pid(prop), k.what, k.class, d);
+        }
+    }
     Ok(t.ctx.viol.iter().filter(|v| v.prop == prop).cloned().collect())
 }
 
